@@ -82,7 +82,7 @@ func cmdCheck(args []string) int {
 			progs[hs.Pkg] = lp
 		}
 		cfg := &harnessCfg{Prop: ps.ID, Pkg: hs.Pkg, Func: hs.Func, Tier: tier, StepBudget: 4000000, DecBudget: 6000,
-			concLimit: 64, Timeout: 20 * time.Second, Workers: *workers, FP: hs.FP}
+			concLimit: 64, Timeout: 45 * time.Second, Workers: *workers, FP: hs.FP}
 		if tier == 1 {
 			cfg.concLimit = 256
 			cfg.Timeout = 120 * time.Second
